@@ -20,9 +20,10 @@ func sendsControlPart(p *Prog, idx int) func(fn *Func, cs CallSite) bool {
 
 func init() {
 	register(&Property{ID: "C07", Run: runC07,
-		Explain: "Admission, pairing and existence rules of the mesh, decided for every router state: (R07.1) every own-initiative graft candidate comes from getPeers with a filter that returns true only for non-direct, non-backed-off peers with score >= 0 (opportunistic: > median, after the negative-score prune), the backoff map consulted by a filter is loaded after the last prune of the same iteration, getPeers keeps only connected mesh-capable peers accepted by the filter, and every key inserted into a mesh map is such a candidate; Join's fanout promotion drops members with negative score or backoff; (R07.2) handleGraft inserts only after: topic joined, not direct, not (backoff present and unexpired), score >= 0, not (mesh >= Dhi and not outbound), peerFilter; (R07.3) graftPeer/prunePeer closures pair the mesh write with the tograft/toprune append (and backoff), sendGraftPrune is on every heartbeat path, Join GRAFTs every member of the final mesh map, Leave PRUNEs every former member; (R07.4) mesh keys are created only in Join and deleted only in Leave, Join removes the topic's fanout/lastpub, fanout entries are created only by getFanoutPeersForPublishing which is consulted only on a failed mesh lookup; (R07.5) handleGraft admits only connected peers (known finding F8 today), OnClosedOutboundStream removes the peer from every mesh and fanout map; the heartbeat's negative-score loop prunes every negatively scored member; (R07.6) every integer division/modulo of the heartbeat by a parameter is safe for every accepted parameter set (validation rejects a zero divisor on every accepting path, including the bootstrapper early return). NOT decided: the quantitative post-conditions (grown to D, cut back to D keeping Dscore best / Dout outbound) — they depend on sorting run-time scores and random selection.",
+		Explain: "Admission, pairing and existence rules of the mesh, decided for every router state: (R07.1) every own-initiative graft candidate comes from getPeers with a filter that returns true only for non-direct, non-backed-off peers with score >= 0 (opportunistic: > median, after the negative-score prune), the backoff map consulted by a filter is loaded after the last prune of the same iteration, getPeers keeps only connected mesh-capable peers accepted by the filter, and every key inserted into a mesh map is such a candidate; Join's fanout promotion drops members with negative score or backoff; (R07.2) handleGraft inserts only after: topic joined, not direct, not (backoff present and unexpired), score >= 0, not (mesh >= Dhi and not outbound), peerFilter; (R07.3) graftPeer/prunePeer closures pair the mesh write with the tograft/toprune append (and backoff), sendGraftPrune is on every heartbeat path, Join GRAFTs every member of the final mesh map, Leave PRUNEs every former member, and sendGraftPrune builds every PRUNE for a topic taken from the peer's toprune entry and every GRAFT for one from its tograft entry; (R07.4) mesh keys are created only in Join and deleted only in Leave, Join removes the topic's fanout/lastpub, fanout entries are created only by getFanoutPeersForPublishing which is consulted only on a failed mesh lookup; (R07.5) handleGraft admits only connected peers (known finding F8 today), OnClosedOutboundStream removes the peer from every mesh and fanout map; the heartbeat's negative-score loop prunes every negatively scored member; (R07.6) every integer division/modulo of the heartbeat by a parameter is safe for every accepted parameter set (validation rejects a zero divisor on every accepting path, including the bootstrapper early return). NOT decided: the quantitative post-conditions (grown to D, cut back to D keeping Dscore best / Dout outbound) — they depend on sorting run-time scores and random selection.",
 		Assume:  []string{"gs.peers holds exactly the peers with an outbound stream (C13)", "shufflePeers/sort only permute"},
 		Mutants: []Mutant{
+			{Name: "prune-topics-from-graft-list", File: "gossipsub.go", Old: "\t\t\tfor _, topic := range pruning {", New: "\t\t\tfor _, topic := range topics {", Expect: "R07.3"},
 			{Name: "join-filter-no-backoff", File: "gossipsub.go", Old: "\t\t\treturn !direct && !doBackOff && gs.score.Score(p) >= 0\n", New: "\t\t\treturn !direct && (!doBackOff || len(backoff) > 16) && gs.score.Score(p) >= 0\n", Expect: "R07.1"},
 			{Name: "heartbeat-filter-score-gt-neg", File: "gossipsub.go", Old: "\t\t\t\treturn !inMesh && !doBackoff && !direct && score(p) >= 0\n\t\t\t})\n\n\t\t\tfor _, p := range plst {\n\t\t\t\tgraftPeer(p)\n\t\t\t}\n\t\t}\n\n\t\t// do we have too many peers?", New: "\t\t\t\treturn !inMesh && !doBackoff && !direct && score(p) >= gs.publishThreshold\n\t\t\t})\n\n\t\t\tfor _, p := range plst {\n\t\t\t\tgraftPeer(p)\n\t\t\t}\n\t\t}\n\n\t\t// do we have too many peers?", Expect: "R07.1"},
 			{Name: "heartbeat-hoisted-backoff", File: "gossipsub.go", Old: "\t\t// drop all peers with negative score, without PX\n\t\tfor p := range peers {\n\t\t\tif score(p) < 0 {\n\t\t\t\tgs.logger.Debug(\"HEARTBEAT: Prune peer with negative score\", \"peer\", p, \"score\", score(p), \"topic\", topic)\n\t\t\t\tprunePeer(p)\n\t\t\t\tnoPX[p] = true\n\t\t\t}\n\t\t}\n\n\t\t// do we have enough peers?\n\t\tif l := len(peers); l < gs.params.Dlo {\n\t\t\tbackoff := gs.backoff[topic]\n", New: "\t\tbackoff := gs.backoff[topic]\n\t\t// drop all peers with negative score, without PX\n\t\tfor p := range peers {\n\t\t\tif score(p) < 0 {\n\t\t\t\tgs.logger.Debug(\"HEARTBEAT: Prune peer with negative score\", \"peer\", p, \"score\", score(p), \"topic\", topic)\n\t\t\t\tprunePeer(p)\n\t\t\t\tnoPX[p] = true\n\t\t\t}\n\t\t}\n\n\t\t// do we have enough peers?\n\t\tif l := len(peers); l < gs.params.Dlo {\n", Expect: "R07.1"},
@@ -508,6 +509,47 @@ func runC07(c *RuleCtx) {
 				ok, why := p.LoopBodyMust(f, r, nil, p.callPred(f, fnSendRPC))
 				c.Check(ok, "R07.3", f.Name, "every "+nm+" entry is sent", r, why, why)
 			}
+		}
+		// provenance: every PRUNE built here is for a topic taken from toprune, every GRAFT for one from tograft
+		fromParam := func(v *V, idx int) bool {
+			if v == nil || (v.Kind != "rangeval" && v.Kind != "rangekey") {
+				return false
+			}
+			// the collection ranged over is (an entry of) the idx-th parameter: toprune[p], each(tograft), …
+			root := v.Args[0]
+			for root != nil && (root.Kind == "lookupval" || root.Kind == "index" || root.Kind == "rangeval") && len(root.Args) > 0 {
+				root = root.Args[0]
+			}
+			return isParam(f, idx)(root)
+		}
+		nPrune := 0
+		for _, cs := range p.Sites(f, false, fnMakePrune) {
+			nPrune++
+			tv := p.R(f).Val(cs.Call.Args[1])
+			c.Check(fromParam(tv, 1), "R07.3", f.Name, "PRUNE built for a topic taken from toprune", cs.Call, tv.String(), "a PRUNE is built for "+tv.String()+", which is not a topic of the peer's toprune entry: the peer is not told about the mesh it was removed from")
+		}
+		if nPrune < 2 {
+			c.Undecided("R07.3", f.Name, "PRUNE construction sites", f.Decl, "fewer makePrune calls than known")
+		}
+		nGraft := 0
+		inspectNoLit(f.Body, func(x ast.Node) bool {
+			cl, ok := x.(*ast.CompositeLit)
+			if !ok || !strings.HasSuffix(typeString(f.Info().TypeOf(cl), modPath), "pb.ControlGraft") {
+				return true
+			}
+			for _, el := range cl.Elts {
+				if kv, ok := el.(*ast.KeyValueExpr); ok {
+					if k, ok := kv.Key.(*ast.Ident); ok && f.Info().Uses[k] != nil && f.Info().Uses[k].Name() == "TopicID" {
+						nGraft++
+						tv := p.R(f).Val(kv.Value)
+						c.Check(fromParam(tv, 0), "R07.3", f.Name, "GRAFT built for a topic taken from tograft", cl, tv.String(), "a GRAFT is built for "+tv.String()+", which is not a topic of the peer's tograft entry")
+					}
+				}
+			}
+			return true
+		})
+		if nGraft < 1 {
+			c.Undecided("R07.3", f.Name, "GRAFT construction sites", f.Decl, "no ControlGraft literal with a TopicID found")
 		}
 	}
 	if f := c.MustFn("R07.3", "(*GossipSubRouter).Join"); f != nil {
